@@ -122,6 +122,28 @@ def check(an, rep, tier):
             else:
                 check_tt_returns(
                     rep, [r], lambda run: [Poly.sym('mnew')] * run.d)
+    from ..poly import same as _same, definitely_differ as _dd
+    for r in runs:
+        q_ = r.qualname
+        exp = None
+        if q_ == 'func_full.func_int_full':
+            exp = [Poly.sym('Y.n%d' % k) for k in range(r.d)]
+        elif q_ == 'func_full.func_gets_full':
+            exp = [Poly.sym('mnew')] * r.d if 'm' in r.variant else \
+                [Poly.sym('A.n%d' % k) for k in range(r.d)]
+        elif q_ == 'func_full.func_get_full':
+            exp = [Poly.sym('m')]
+        if exp is not None:
+            rv = r.result
+            ok = rv.k == 'arr' and rv.dims is not None and \
+                len(rv.dims) == len(exp) and all(
+                    x is not None and _same(x, e) for x, e in zip(rv.dims, exp))
+            bad = rv.k == 'arr' and rv.dims is not None and (
+                len(rv.dims) != len(exp) or any(
+                    x is not None and _dd(x, e) for x, e in zip(rv.dims, exp)))
+            rep.add('S-dense', q_, 'result axes for %s' % r.tag(),
+                    'ok' if ok else ('violation' if bad else 'unknown'),
+                    '' if ok else 'returned %r, expected axes %s' % (rv, exp))
     from fractions import Fraction
     for r in runs:
         if r.qualname == 'func.func_diff_matrix' and \
@@ -161,6 +183,11 @@ def check(an, rep, tier):
     if tier == 'thorough':
         from .. import rules_formula
         rules_formula.check_cheb_siblings(prog, rep)
+    from .. import rules_proto as _RP
+    _callers = {f.qualname for f in prog.all_functions()
+                if f.module.name in ('func', 'func_full')}
+    _RP.check_param_forwarding(prog, rep, callers=_callers)
+    rep.floor('S-dense', 4, 'dense result axes')
     rep.floor('U-deg', 3, 'differentiation matrix scaling')
     rep.floor('X1-bind', 60, 'external calls bound')
     rep.floor('S-einsum', 3, 'coefficient contractions')
